@@ -26,11 +26,13 @@ RULE = ("operations: init(app, unit) / stop(app) / subroutines doing qalloc, qfr
         "untouched; after stop nothing of the application remains and the same id registers again."
         ' Early arrivals (a keep-response whose memory position is reserved before the matching recv is posted, possibly across a stop and re-registration); a second bounded search from two registered applications over an alphabet of blocking subroutines, deliveries and early arrivals; SDK-level walks (connections of one party opened and closed in any order with explicit and automatic application ids, allocating / freeing / writing) under the same invariants. '
         ' A second registration of an id that is still registered must be refused and change nothing. '
+        ' Deliveries go through a polling link layer: a hand-over that fails loudly (request for a qubit id outside the unit module, request that outlived its subroutine - op recvnw -, result array too short - op recvs) is re-polled and the positions of responses the executor gave up on are taken back; rule: a pending pair whose request is alive, whose application is suspended in its wait and whose qubit id is free must have been handed over (asked from the executor\'s records and from the harness\'s own); a memory position may not be both mapped and pending. '
         "Non-trivial = every "
         "history with >= 2 applications active at some point; distinct = distinct operation sequence; 'states' = "
         "distinct abstract controller states visited.")
 ASSUMPTIONS = ["the link layer reserves a physical id before the response is consumed (in-flight ids are excluded from used == mapped while a response is pending)",
                "a faulting subroutine is a legitimate history element: the invariants must hold after the fault as well",
+               "the link layer learns from the exception that a hand-over failed, polls again and owns the positions of responses the executor dropped",
                "subroutines of different applications may be in flight at once (a subroutine blocked in a wait does not stop other applications)"]
 SHARDS = {"quick": 4, "thorough": 16}
 MIN_COUNTERS = {"invariant_evaluations": 3000, "allocate_postconditions": 200, "stops_checked": 100, "isolation_snapshots": 2000}
